@@ -97,6 +97,8 @@ def _hashables(py2, surrogates=True):
             st.lists(inner, max_size=4).map(lambda xs: ["T", xs]),
             st.lists(inner, max_size=4).map(lambda xs: ["T", xs]),
             st.lists(inner, max_size=4).map(lambda xs: ["Z", _dedupe(xs)]),
+            st.lists(inner, max_size=3).map(lambda xs: ["Z", _dedupe(xs)]),
+            st.lists(inner, max_size=2).map(lambda xs: ["T", xs]),
             _big(["T", "Z"], inner),
         )
     return st.recursive(base, extend, max_leaves=8)
@@ -113,6 +115,10 @@ def _values(py2, surrogates=True):
             st.lists(h, max_size=4).map(lambda xs: ["S", _dedupe(xs)]),
             st.lists(st.tuples(h, inner), max_size=4).map(
                 lambda kv: ["D", [[k, v] for k, v in kv]]),
+            st.lists(st.tuples(h, inner), max_size=2).map(
+                lambda kv: ["D", [[k, v] for k, v in kv]]),
+            st.lists(inner, max_size=3).map(lambda xs: ["T", xs]),
+            st.lists(inner, max_size=3).map(lambda xs: ["L", xs]),
             _big(["T", "L", "S"], h),
         )
     return st.recursive(base, extend, max_leaves=10)
